@@ -181,7 +181,7 @@ func workerMain(name string) {
 // ---------------------------------------------------------------------------------------
 // parent side
 
-const stallLimit = 120 * time.Second
+const stallLimit = 200 * time.Second
 
 type capBuf struct {
 	mu sync.Mutex
@@ -270,7 +270,21 @@ type crash struct {
 }
 
 // runJob evaluates one case; on a dead or stalled worker it returns a crash.
+// impatience: a call with the value 2^31 normally returns within milliseconds; in about one
+// process out of a hundred the Go allocator has to zero the 16 GiB (see hugeBegin), which
+// takes tens of seconds.  The worker brackets such calls with "H"/"h" lines; a parent that is
+// impatient kills a worker that stays between the two for longer than this and tries the
+// case again in a fresh process.  The last attempt is always patient, so a call that really
+// hangs is still found by the worker's own watchdog.
+const hugeImpatience = 3 * time.Second
+
+var errImpatient = &crash{sub: -2}
+
 func (w *worker) runJob(idx int, skip []int) (*caseResult, *crash) {
+	return w.runJobP(idx, skip, false)
+}
+
+func (w *worker) runJobP(idx int, skip []int, impatient bool) (*caseResult, *crash) {
 	w.errb.reset()
 	ss := make([]string, len(skip))
 	for i, s := range skip {
@@ -283,8 +297,12 @@ func (w *worker) runJob(idx int, skip []int) (*caseResult, *crash) {
 	cur := &crash{sub: -1}
 	timer := time.NewTimer(stallLimit)
 	defer timer.Stop()
+	var hugeQ <-chan time.Time
 	for {
 		select {
+		case <-hugeQ:
+			w.kill()
+			return nil, errImpatient
 		case ln, ok := <-w.lines:
 			if !ok {
 				_ = w.cmd.Wait()
@@ -300,6 +318,12 @@ func (w *worker) runJob(idx int, skip []int) (*caseResult, *crash) {
 			}
 			timer.Reset(stallLimit)
 			switch {
+			case ln == "H":
+				if impatient {
+					hugeQ = time.After(hugeImpatience)
+				}
+			case ln == "h":
+				hugeQ = nil
 			case strings.HasPrefix(ln, "P "):
 				f := strings.SplitN(ln, " ", 4)
 				if len(f) == 4 {
@@ -350,6 +374,8 @@ func excerpt(s string) string {
 	return strings.Join(keep, "; ")
 }
 
+var hugeSem = make(chan struct{}, 2)
+
 type caseOutcome struct {
 	idx     int
 	res     *caseResult // merged
@@ -362,11 +388,13 @@ func evalCase(sc *scenario, tier string, wp **worker, idx int) caseOutcome {
 	o := caseOutcome{idx: idx}
 	var skip []int
 	huge := sc.huge != nil && sc.huge(tier, idx)
+	impatientLeft := 3
 	if huge {
-		// private one-case worker
+		// private one-case worker; at most hugeSem of them at a time
+		hugeSem <- struct{}{}
 		var own *worker
 		wp = &own
-		defer func() { own.stop() }()
+		defer func() { own.stop(); <-hugeSem }()
 	}
 	for attempt := 0; attempt < 40; attempt++ {
 		if *wp == nil {
@@ -377,7 +405,7 @@ func evalCase(sc *scenario, tier string, wp **worker, idx int) caseOutcome {
 			}
 			*wp = w
 		}
-		r, c := (*wp).runJob(idx, skip)
+		r, c := (*wp).runJobP(idx, skip, huge && impatientLeft > 0)
 		if c == nil {
 			o.res = r
 			if r.Exit {
@@ -387,6 +415,10 @@ func evalCase(sc *scenario, tier string, wp **worker, idx int) caseOutcome {
 			return o
 		}
 		*wp = nil
+		if c == errImpatient {
+			impatientLeft--
+			continue
+		}
 		if c.sub < 0 {
 			o.intern = fmt.Sprintf("case %d: worker failed before any sub-case: %s", idx, c.msg)
 			return o
@@ -512,7 +544,7 @@ func runScenario(sc *scenario, st *ekit.Stats, tier string) {
 	}
 	confs := make([]conf, len(suspects))
 	var cnext int64 = -1
-	cpar := 8
+	cpar := 24
 	if cpar > len(suspects) {
 		cpar = len(suspects)
 	}
